@@ -319,7 +319,8 @@ func c13RunCommands(R *ev.Run, dir, tag string, files []string, n int, fifos ...
 		}
 		return b
 	}
-	if b := run("report-json", func(out string) error { return report(files, "json", out, 0, "") }); b != nil {
+	// with -buckets, so that the histogram embedded in the metrics is compared as well
+	if b := run("report-json", func(out string) error { return report(files, "json", out, 0, "[0,5ms,7ms,1s]") }); b != nil {
 		m, err := c13NormJSON(b)
 		if err != nil {
 			o.fail["report-json"] = "unparsable: " + err.Error()
@@ -356,6 +357,8 @@ func TestC13(t *testing.T) {
 	p := cresPool()
 	// one record larger than every I/O buffer on the path (bufio 4 KiB, Scanner 64 KiB); it is never the first record of the set
 	p[6].Body, p[6].BytesIn = cresBigBody(100000), 100000
+	// one error text occurs twice, on results whose latencies fall into different buckets
+	p[5].Error = p[1].Error
 	N := 7
 	NK := ev.Pick(6, 7) // n for k = 4..6
 	R.Set("max_records_k_le_3", N)
